@@ -62,6 +62,28 @@ func init() {
 	specsFor["C11"] = c11Specs
 	checks["C11"] = func(c *Ctx) *Result {
 		r := runSpecs(c, c11Specs(c.Tier))
+		if r.Found == nil {
+			sizes := []int{1500}
+			if c.Tier == "thorough" {
+				sizes = []int{300, 1500, 5000}
+			}
+			total := 0
+			for _, n := range sizes {
+				for _, order := range []string{"ascending", "descending", "alternating"} {
+					k, fail := bigTreeCosts(n, order)
+					total += k
+					if fail != "" {
+						rawViolation(c, r, fail, map[string]any{"keys": n, "order": order})
+						break
+					}
+				}
+			}
+			r.States += total
+			r.Transitions += total * 5
+			r.Extra = map[string]any{"large_tree_supplement": map[string]any{"sizes": sizes, "orders": []string{"ascending", "descending", "alternating"}, "probes": total,
+				"note": "fixed large scenarios (not exhaustive): every stored key and every gap of each tree is probed for the 2h+2 / 10h+10 read bounds"}}
+			r.Samples = append(r.Samples, "large tree: 1500 keys inserted in ascending order, committed in 2 versions; GetProof of every key and gap")
+		}
 		r.Assumptions = []string{"node reads = Get calls on the storage during one lookup on an already opened ImmutableTree, with node cache 0 and fast index off"}
 		return r
 	}
